@@ -82,6 +82,7 @@ type Opts struct {
 	// FailOtherKindOneIn: 1/k of the failed transactions fail with AccountInUse instead of InstructionError/Custom
 	FailOtherKindOneIn int
 	NoPosIndex         bool // no transaction carries the optional position index (archives of the first format generation)
+	NoPosIndexOneIn    int  // 1/k transactions lack the optional position index
 	// Universe: when non-empty, the non-fee-payer account keys are drawn from this small set
 	Universe []solana.PublicKey
 	// KeyHook lets a test force specific accounts into a transaction (appended to the static keys).
@@ -517,7 +518,7 @@ func Generate(path string, o Opts) (*Model, error) {
 				metaFrame := SplitFrames(tx.MetaZ, km, fan, fnvSum, store)
 				tx.NFramesD, tx.NFramesM = **dataFrame.Total, **metaFrame.Total
 				node := ipldbindcode.Transaction{Kind: KindTransaction, Data: dataFrame, Metadata: metaFrame, Slot: int(slot), Index: pp(pos)}
-				if o.NoPosIndex {
+				if o.NoPosIndex || oneIn(rng, o.NoPosIndexOneIn) {
 					// the optional position index absent (null), as in archives written before the field existed
 					var none *int
 					node.Index = &none
